@@ -467,7 +467,7 @@ func prepareCall(fr *frame, call *ssa.CallCommon) (fn value, args []value) {
 		// Interface method invocation.
 		recv := v.(iface)
 		if recv.t == nil {
-			panic("method invoked on nil interface")
+			panic(runtimeErrString("invalid memory address or nil pointer dereference (method on nil interface)"))
 		}
 		if n, ok := recv.v.(*nativeObj); ok {
 			meth := call.Method.Name()
@@ -498,7 +498,7 @@ func call(i *interpreter, caller *frame, callpos token.Pos, fn value, args []val
 	switch fn := fn.(type) {
 	case *ssa.Function:
 		if fn == nil {
-			panic("call of nil function") // nil of func type
+			panic(runtimeErrString("invalid memory address or nil pointer dereference (call of nil func)"))
 		}
 		return callSSA(i, caller, callpos, fn, args, nil)
 	case *closure:
@@ -709,8 +709,11 @@ func doRecover(caller *frame) value {
 			// The interpreter encountered a runtime error.
 			return iface{caller.i.runtimeErrorString, p.Error()}
 		case string:
-			// The interpreter explicitly called panic().
-			return iface{caller.i.runtimeErrorString, p}
+			// The interpreter itself gave up (unsupported construct): the target's
+			// recover must not swallow it.
+			caller.caller.panicking = true
+			caller.caller.panic = p
+			panic(p)
 		case error:
 			return iface{caller.i.runtimeErrorString, p.Error()}
 		default:
